@@ -87,3 +87,105 @@ def _(c):
          "tp in self._batches and len(self._batches[tp]) >= 1 and batch == self._batches[tp][len(self._batches[tp]) - 1]"),
         ("assert", "the-record-is-passed-on-as-given", "a0 == key and a1 == value and a2 == timestamp_ms and kw_headers == headers"),
     ])
+
+
+@contract(MOD + ":MessageAccumulator.add_batch", ["C02", "C01"])
+def _(c):
+    """C02 "each accepted record's future resolves exactly once ... flush() returns only after every accepted record is
+    resolved": flush(), drain and reenqueue keep their books by the batch's own delivery future (its done-callback removes
+    the batch from the in-flight set; every contract on them assumes nobody outside resolves or cancels it). A user-built
+    batch is the one place where a future of the batch is handed to the application: it has to be a shield - a future of
+    its own that follows the batch's - so that a cancelled or timed-out caller cannot resolve the batch behind the
+    accumulator's back"""
+    c.self_("MessageAccumulator")
+    c.param("builder", Ref("BatchBuilder"))
+    c.param("tp", TP)
+    c.param("timeout", REAL)
+    c.returns(MA.MSGFUT)
+    c.no_class_inv = True
+    c.none_raises = True
+    c.local("pending", Opt(List(BATCH)))
+    c.shared("batch.future")
+    c.ghost("$shielded", Opt(MA.MSGFUT), "None")
+    c.callee_view("MessageAccumulator._append_batch", ["queued-at-the-end-of-its-partitions-queue"])
+    c.call("asyncio.shield", returns=MA.MSGFUT, post=["fresh(result)"], ghost={"$shielded": "a0"},
+           note="asyncio.shield(fut): a new outer future that follows fut; cancelling the outer one does not cancel fut")
+    c.call("copy.copy", returns="a0", note="copy.copy(exc) is an exception of the same class")
+    c.call("pending*.wait_drain", havoc_all=True, raises=["CancelledError", "KafkaError"],
+           note="MessageBatch.wait_drain(timeout): suspends until the sender has taken the batch (or it failed / timed out)")
+    c.call("time.monotonic", returns=REAL, note="clock")
+    c.modifies("self._batches", "TransactionManager._pending_txn_partitions", "Future.state", "Future.nres")
+    c.raises("closed-failed-refused-timed-out-or-cancelled", "BaseException")
+    c.loop(0, header="while timeout > 0", invariants=[
+        ("checked-open-and-unfailed-since-the-last-suspension", "not self._closed and self._exception is None")])
+    c.ensures_internal("the-caller-gets-a-shield-of-the-queued-batchs-future-never-the-future-itself",
+                       "fresh(result) and tp in self._batches and len(self._batches[tp]) >= 1 and $shielded is not None"
+                       " and $shielded == self._batches[tp][len(self._batches[tp]) - 1].future"
+                       " and result != self._batches[tp][len(self._batches[tp]) - 1].future")
+    c.hook("before", "self._append_batch", [
+        ("assert", "nothing-is-accepted-once-the-accumulator-is-closed-or-failed", "not self._closed and self._exception is None"),
+        ("assert", "the-batch-is-queued-alone-for-its-partition", "a0 == builder and a1 == tp and not (tp in self._batches and len(self._batches[tp]) > 0)"),
+    ])
+    c.replay_fn = lambda model, ob=None: {"script": _ADD_BATCH_SCRIPT}
+
+
+# replay: (1) a send_batch() waiting for a slot while the producer is stopped: it must be refused, not queued into the closed
+# accumulator; (2) a user-built batch whose send_batch() future is cancelled by the caller while it is queued
+_ADD_BATCH_SCRIPT = '''
+import asyncio, logging
+logging.disable(logging.CRITICAL)
+from aiokafka.producer.message_accumulator import MessageAccumulator
+from aiokafka.structs import TopicPartition
+
+class Cluster:
+    def leader_for_partition(self, tp):
+        return 1
+
+async def close_race():
+    acc = MessageAccumulator(Cluster(), 1 << 16, 0, 1000)
+    tp = TopicPartition("t", 0)
+    def mk(v):
+        b = acc.create_builder(); b.append(timestamp=None, key=None, value=v); return b
+    await acc.add_batch(mk(b"one"), tp, 5)
+    t2 = asyncio.ensure_future(acc.add_batch(mk(b"two"), tp, 5))       # waits for a slot
+    await asyncio.sleep(0.01)
+    closer = asyncio.ensure_future(acc.close())                          # producer.stop(): closed, then flush()
+    await asyncio.sleep(0.01)
+    nodes, _ = acc.drain_by_nodes(ignore_nodes=set())
+    nodes[1][tp].done_noack()
+    await asyncio.sleep(0.05)
+    out = []
+    if t2.done() and t2.exception() is None:
+        await asyncio.sleep(0.05)
+        out.append("a send_batch() that was waiting for a slot was accepted into the accumulator after close() (close returned: %s); "
+                   "its future is %s" % (closer.done(), "resolved" if t2.result().done() else "pending for ever"))
+    for f in (t2, closer):
+        if not f.done(): f.cancel()
+    for b in [b for q in acc._batches.values() for b in q]:
+        b.done_noack()
+    return out
+
+async def main():
+    bad = await close_race()
+    acc = MessageAccumulator(Cluster(), 1 << 16, 0, 1000)
+    tp = TopicPartition("t", 0)
+    builder = acc.create_builder()
+    builder.append(timestamp=None, key=None, value=b"v")
+    fut = await acc.add_batch(builder, tp, 1)
+    batch = acc._batches[tp][0]
+    fut.cancel()                                   # the caller gives up (asyncio.wait_for timeout)
+    await asyncio.sleep(0)
+    if batch.future.done():
+        bad.append("cancelling the future send_batch() returned resolved the batch's own delivery future: flush() no longer "
+                   "waits for its records and reenqueue() of the batch raises KeyError")
+    nodes, _ = acc.drain_by_nodes(ignore_nodes=set())
+    try:
+        acc.reenqueue(nodes[1][tp])                # a retriable fault on the request in flight
+    except Exception as e:
+        bad.append("reenqueue() after the caller's cancellation raised %r" % (e,))
+    for b in list(acc._batches.get(tp, [])):
+        b.done_noack()
+    return bad
+bad = asyncio.run(main())
+VIOLATED = bool(bad); DETAIL = "; ".join(bad)
+'''
